@@ -110,4 +110,23 @@ theorem alookup_mkMap_inj (ls : List Nat) : ∀ (n a b v : Nat),
       omega
     · exact ih (n + 1) a b v ha hb
 
+theorem graph_mem_of_fillTemplate (μ : Binding) (bm : List (Nat × Nat)) (tgt : GName) (tpl : List QTpl) (x : Quad)
+    (h : x ∈ fillTemplate μ bm tgt tpl) : x.graph ∈ tpl.filterMap (fun q => instGraph μ tgt q.2) := by
+  obtain ⟨q, hq, hx⟩ := (mem_fillTemplate μ bm tgt tpl x).1 h
+  have := ((fillQuad_eq_some μ bm tgt q x).1 hx).2.2.2.1
+  exact List.mem_filterMap.2 ⟨q, hq, this⟩
+
+theorem mem_solPairs (del ins : Option (List QTpl)) (tgt : GName) (sols : List Binding) :
+    ∀ (n : Nat) (p : List Quad × List Quad), p ∈ solPairs del ins tgt sols n →
+      ∃ μ ∈ sols, ∃ n', p = (delOf del tgt μ, insOf ins tgt μ n') := by
+  induction sols with
+  | nil => intro n p h; simp [solPairs] at h
+  | cons μ rest ih =>
+    intro n p h
+    simp only [solPairs, List.mem_cons] at h
+    rcases h with rfl | h
+    · exact ⟨μ, List.mem_cons_self, n, rfl⟩
+    · obtain ⟨ν, hν, n', e⟩ := ih _ p h
+      exact ⟨ν, List.mem_cons_of_mem _ hν, n', e⟩
+
 end RV.C10
